@@ -96,6 +96,14 @@ def combos(chk, tier):
         out.append((f"leeds-legal+{g}", [d / "legal.leeds"], ["leeds"], g, {}, G))
     out.append(("leeds-grain-species+nograin", [d / "grains.leeds"], ["leeds"], "", {}, G))
     out.append(("leeds-photo+nograin", [d / "photo.leeds"], ["leeds"], "", {}, G))
+    # every combination of the shielding tables a project can select (the declarations of the tables live in one header, their
+    # definitions and their users in two other files)
+    for h2 in (None, "L96Table"):
+        for co in (None, "V09Table", "VB88Table"):
+            for n2 in (None, "L13Table"):
+                tab = {k: v for k, v in (("H2", h2), ("CO", co), ("N2", n2)) if v}
+                if tab:
+                    out.append((f"tables:{h2 or '-'}/{co or '-'}/{n2 or '-'}", [d / "photo.leeds"], ["leeds"], "", {"shielding": tab}, G))
     out.append(("leeds-uclchem-mixture+nograin", [d / "photo.leeds", d / "ice-notherm.ucl"], ["leeds", "uclchem"], "", {}, E))
     out.append(("uclchem-leeds-mixture+rr07", [d / "ice-notherm.ucl", d / "photo.leeds"], ["uclchem", "leeds"], "rr07", {}, E))
     (d / "late.krome").write_text("@format:idx,R,R,R,P,P,P,P,Tmin,Tmax,rate\n1,H,E,,H+,E,E,,NONE,NONE,1.0d-10*Te\n"
@@ -150,8 +158,8 @@ def run(argv):
             chk.hist["refused:" + type(e).__name__] += 1
             chk.sample({"combo": label, "refused": f"{type(e).__name__}: {e}"[:200]}, limit=12)
             continue
-        for b in backends:
-            path = chk.scratch / f"{label}-{b}"
+        for b in (backends[:1] if label.startswith("tables:") and tier == "quick" else backends):
+            path = chk.scratch / f"{label.replace('/', '_').replace(':', '_')}-{b}"
             try:
                 render(net, b, path)
             except Exception as e:
